@@ -1,11 +1,14 @@
-"""Translator A for C03: the tables the AST builder consults NOW (read from the live modules, PYTHONPATH=/repo).
+"""Translator A for C03: the facts the AST builder's behaviour depends on NOW, extracted by PROBING the live pydoctor
+(PYTHONPATH=/repo) -- small modules are built / the live methods are called and the answers tabulated -- never by matching
+source text, so renamed locals, guard clauses, lookup tables, comprehensions, extracted helpers do not matter:
 
-  * model._STD_LIB_EXCEPTIONS                      -> std_lib_exceptions : list text
-  * astbuilder.MODULE_VARIABLES_META_PARSERS keys   -> module_meta_vars   : list text
-  * astbuilder._CONTROL_FLOW_BLOCKS                 -> cf_if cf_while cf_for cf_try cf_with : bool
-  * the suite attribute astutils.NodeVisitor.get_children iterates (source shape is checked: exactly
-    `body = getattr(node, 'body', None); if body is not None: for child in body: yield child`)  -> children_attr : text
-  * the two builtin names _handleOldSchoolMethodDecoration accepts (`func_name in [...]`)       -> oldschool_names : list text
+  * which base-class names make a class an EXCEPTION (every builtin class name probed)   -> std_lib_exceptions : list text
+  * which module-level names are metadata, not documented variables                        -> module_meta_vars   : list text
+  * which blocks stop an upper-case name from being a CONSTANT                             -> cf_if cf_while cf_for cf_try cf_with
+  * the suite attribute astutils.NodeVisitor.get_children iterates, PROBED on the live classmethod with marker
+    statements in every statement-list field of every compound statement class               -> children_attr : text
+  * the names ModuleVistor._handleOldSchoolMethodDecoration accepts in `f = NAME(f)` and the kind it sets, PROBED on the
+    live method for every builtin name (plus refusal probes)                     -> oldschool_names, oldschool_kinds
 
 Fail-closed: any unrecognised shape raises Unrecognised.  Output: Gen/TablesC03.v (definitions only)."""
 from __future__ import annotations
@@ -32,85 +35,177 @@ def coq_text_list(l: List[str]) -> str:
     return '[\n    ' + ';\n    '.join('%s (* %s *)' % (coq_text(s), s) for s in l) + ']'
 
 
-def func_ast(f: Any) -> ast.FunctionDef:
-    src = textwrap.dedent(inspect.getsource(f))
-    t = ast.parse(src).body[0]
-    need(isinstance(t, (ast.FunctionDef, ast.AsyncFunctionDef)), 'not a function: %r' % f)
-    return t
-
-
-def strip_doc(body: List[ast.stmt]) -> List[ast.stmt]:
-    if body and isinstance(body[0], ast.Expr) and isinstance(body[0].value, ast.Constant) and isinstance(body[0].value.value, str):
-        return body[1:]
-    return body
-
+# ---------------------------------------------------------------------------------------------------------------
+# Both facts below are extracted from the BEHAVIOUR of the live objects, not from their source text, so that renamed
+# locals, guard clauses, lookup tables, comprehensions, helper functions ... do not matter.  Fail-closed: a behaviour the
+# probe cannot express as the table it emits raises Unrecognised.
 
 def children_attr() -> str:
+    """Which suite of a compound statement NodeVisitor.get_children yields: probed on one node of every statement class
+    that has statement-list fields, each field filled with distinguishable marker statements.  The answer must be one
+    attribute name A with  list(get_children(node)) == getattr(node, A, [])  for every probe (same objects, same order)."""
     from pydoctor import astutils
-    gc = astutils.NodeVisitor.__dict__['get_children']
-    need(isinstance(gc, classmethod), 'get_children is not a classmethod')
-    f = func_ast(gc.__func__)
-    body = strip_doc(f.body)
-    need(len(body) == 2, 'get_children has %d statements, expected 2' % len(body))
-    a, i = body
-    need(isinstance(a, (ast.Assign, ast.AnnAssign)), 'get_children: first statement is not an assignment')
-    val = a.value
-    need(isinstance(val, ast.Call) and isinstance(val.func, ast.Name) and val.func.id == 'getattr' and len(val.args) == 3,
-         'get_children: not getattr(node, <attr>, None)')
-    need(isinstance(val.args[1], ast.Constant) and isinstance(val.args[1].value, str), 'get_children: attribute is not a literal')
-    need(isinstance(val.args[2], ast.Constant) and val.args[2].value is None, 'get_children: default is not None')
-    tgt = a.target if isinstance(a, ast.AnnAssign) else a.targets[0]
-    need(isinstance(tgt, ast.Name), 'get_children: target is not a name')
-    need(isinstance(i, ast.If) and not i.orelse and len(i.body) == 1 and isinstance(i.body[0], ast.For),
-         'get_children: second statement is not `if body is not None: for ...`')
-    loop = i.body[0]
-    need(isinstance(loop.iter, ast.Name) and loop.iter.id == tgt.id and not loop.orelse and len(loop.body) == 1,
-         'get_children: loop does not iterate the fetched attribute')
-    y = loop.body[0]
-    need(isinstance(y, ast.Expr) and isinstance(y.value, ast.Yield) and isinstance(y.value.value, ast.Name)
-         and isinstance(loop.target, ast.Name) and y.value.value.id == loop.target.id, 'get_children: loop body is not `yield child`')
-    return val.args[1].value
+    gc = astutils.NodeVisitor.get_children
+
+    def marks(tag: str, n: int = 2) -> List[ast.stmt]:
+        return [ast.Expr(value=ast.Constant(value='%s%d' % (tag, i))) for i in range(n)]
+    probes: List[ast.AST] = []
+    nm = ast.Name(id='x', ctx=ast.Load())
+    probes.append(ast.Module(body=marks('mb'), type_ignores=[]))
+    probes.append(ast.ClassDef(name='C', bases=[], keywords=[], body=marks('cb'), decorator_list=[]))
+    args = ast.arguments(posonlyargs=[], args=[], kwonlyargs=[], kw_defaults=[], defaults=[])
+    probes.append(ast.FunctionDef(name='f', args=args, body=marks('fb'), decorator_list=[]))
+    probes.append(ast.AsyncFunctionDef(name='f', args=args, body=marks('ab'), decorator_list=[]))
+    probes.append(ast.If(test=nm, body=marks('ib'), orelse=marks('io')))
+    probes.append(ast.For(target=nm, iter=nm, body=marks('ob'), orelse=marks('oo')))
+    probes.append(ast.While(test=nm, body=marks('wb'), orelse=marks('wo')))
+    probes.append(ast.With(items=[ast.withitem(context_expr=nm)], body=marks('hb')))
+    handler = ast.ExceptHandler(type=None, name=None, body=marks('eh'))
+    probes.append(ast.Try(body=marks('tb'), handlers=[handler], orelse=marks('to'), finalbody=marks('tf')))
+    probes.append(handler)
+    probes.append(ast.Expr(value=ast.Constant(value=1)))           # a statement without suites
+    probes.append(ast.Assign(targets=[nm], value=ast.IfExp(test=nm, body=nm, orelse=nm)))
+    cands = ['body', 'orelse', 'finalbody', 'handlers']
+    ok = []
+    for a in cands:
+        good = True
+        for node in probes:
+            got = list(gc(node))
+            want = getattr(node, a, None)
+            want = list(want) if isinstance(want, list) else []
+            if len(got) != len(want) or any(x is not y for x, y in zip(got, want)):
+                good = False
+                break
+        if good:
+            ok.append(a)
+    need(len(ok) == 1, 'NodeVisitor.get_children does not yield exactly one statement-list attribute of every node '
+         '(candidates that fit all probes: %s)' % ok)
+    return ok[0]
 
 
-def oldschool_names() -> List[str]:
-    from pydoctor import astbuilder
-    f = func_ast(astbuilder.ModuleVistor._handleOldSchoolMethodDecoration)
-    found: List[List[str]] = []
-    for n in ast.walk(f):
-        if isinstance(n, ast.Compare) and len(n.ops) == 1 and isinstance(n.ops[0], ast.In) and \
-                isinstance(n.left, ast.Name) and n.left.id == 'func_name':
-            c = n.comparators[0]
-            need(isinstance(c, (ast.List, ast.Tuple)) and all(isinstance(e, ast.Constant) and isinstance(e.value, str) for e in c.elts),
-                 '_handleOldSchoolMethodDecoration: `func_name in` is not followed by a literal list')
-            found.append([e.value for e in c.elts])
-    need(len(found) == 1, '_handleOldSchoolMethodDecoration: expected one `func_name in [...]` test, found %d' % len(found))
-    return found[0]
+def oldschool_table() -> List[Any]:
+    """Which `f = NAME(f)` re-bindings ModuleVistor._handleOldSchoolMethodDecoration accepts for a method f of the class being
+    walked, and the kind it gives f: probed on the live method for every builtin name and a few others.  Also probed: the
+    call is refused (False, kind untouched) when the argument is another name, when there are two arguments, when the
+    callee is an attribute, and when the target is not a function.  Returns [(name, kind name)] in probe order."""
+    import builtins
+    from pydoctor import model, astbuilder
+
+    def run(src: str, target: str = 'f', make_function: bool = True) -> Any:
+        system = model.System()
+        system.options.verbosity = -10
+        mod = system.Module(system, 'probe_mod')
+        system.addObject(mod)
+        builder = system.defaultBuilder(system)
+        builder.push(mod, 0)
+        cls = builder.pushClass('C', 1)
+        if make_function:
+            builder.pushFunction('f', 2)
+            builder.popFunction()
+        else:
+            builder.addAttribute(name='f', kind=model.DocumentableKind.CLASS_VARIABLE, parent=cls)
+        vis = builder.ModuleVistor(builder, mod)
+        expr = ast.parse(src, mode='eval').body
+        before = cls.contents['f'].kind
+        res = vis._handleOldSchoolMethodDecoration(target, expr)
+        need(isinstance(res, bool), '_handleOldSchoolMethodDecoration does not return a bool')
+        after = cls.contents['f'].kind
+        need(res or after is before, '_handleOldSchoolMethodDecoration changed the kind but returned False on %r' % src)
+        return res, after
+
+    names = sorted(n for n in dir(builtins) if n.isidentifier()) + ['abstractmethod', 'cached_property', 'wraps', 'deco', 'zz', 'f']
+    table = []
+    for n in names:
+        res, kind = run('%s(f)' % n)
+        if res:
+            table.append((n, kind.name))
+    for bad, kw in [('staticmethod(g)', {}), ('staticmethod(f, f)', {}), ('staticmethod()', {}), ('builtins.staticmethod(f)', {}),
+                    ('staticmethod(f.x)', {}), ('f', {}), ('classmethod(f)', {'make_function': False}),
+                    ('staticmethod(f)', {'target': 'g'})]:
+        res, _ = run(bad, **kw)
+        need(res is False, '_handleOldSchoolMethodDecoration accepts %r %r' % (bad, kw))
+    return table
+
+
+def build_module(src: str) -> Any:
+    """one module built by the live pydoctor (System + addModuleString + buildModules, post-processing included)"""
+    from pydoctor import model
+    system = model.System()
+    system.options.verbosity = -10
+    builder = system.systemBuilder(system)
+    builder.addModuleString(src, 'probe_mod')
+    builder.buildModules()
+    return system.allobjects['probe_mod']
+
+
+def exception_names() -> List[str]:
+    """the base-class names that make a class an EXCEPTION for pydoctor: probed by building `class C_i(NAME): pass` for every
+    builtin class name and a few others (whatever table, set or rule model.is_exception uses)"""
+    import builtins
+    cands = sorted(n for n in dir(builtins) if isinstance(getattr(builtins, n), type))
+    cands += ['WindowsError', 'VMSError', 'StandardError', 'NotAnExceptionName', 'exceptions']
+    mod = build_module(''.join('class C_%d(%s):\n    pass\n' % (i, n) for i, n in enumerate(cands)))
+    out = []
+    for i, n in enumerate(cands):
+        c = mod.contents.get('C_%d' % i)
+        need(c is not None and c.kind is not None and c.kind.name in ('CLASS', 'EXCEPTION'), 'probe class C_%d(%s) is not documented as a class' % (i, n))
+        if c.kind.name == 'EXCEPTION':
+            out.append(n)
+    need('object' not in out and 'int' not in out, 'every class is an EXCEPTION for pydoctor')
+    return out
+
+
+def meta_var_names() -> List[str]:
+    """module-level names whose assignment is metadata, not a documented variable: probed by building `NAME = 'x'`"""
+    cands = ['__all__', '__docformat__', '__version__', '__author__', '__slots__', '__doc__', '__path__', 'x_plain']
+    out = []
+    for n in cands:
+        mod = build_module("%s = %s\n" % (n, "['a']" if n == '__all__' else "'epytext'"))
+        if n not in mod.contents:
+            out.append(n)
+    need('x_plain' not in out, 'a plain module variable is not documented')
+    return out
+
+
+def control_flow_flags() -> dict:
+    """does an assignment inside this kind of block stop an upper-case name from being a CONSTANT (astbuilder.is_constant)?"""
+    need(build_module('XCONST = 1\n').contents['XCONST'].kind.name == 'CONSTANT', 'a module-level upper-case name is not a CONSTANT')
+    blocks = {'if': 'if 1:\n    XCONST = 1\n', 'while': 'while 1:\n    XCONST = 1\n    break\n',
+              'for': 'for i in (0,):\n    XCONST = 1\n', 'try': 'try:\n    XCONST = 1\nexcept Exception:\n    pass\n',
+              'with': 'with open(__file__):\n    XCONST = 1\n'}
+    out = {}
+    for k, src in blocks.items():
+        o = build_module(src).contents.get('XCONST')
+        need(o is not None and o.kind is not None, 'an assignment in the body of a `%s` block is not documented' % k)
+        out[k] = o.kind.name != 'CONSTANT'
+    return out
 
 
 def generate() -> dict:
-    from pydoctor import model, astbuilder
-    exc = model._STD_LIB_EXCEPTIONS
-    need(isinstance(exc, tuple) and all(isinstance(x, str) for x in exc), '_STD_LIB_EXCEPTIONS is not a tuple of str')
-    meta = list(astbuilder.MODULE_VARIABLES_META_PARSERS.keys())
-    need(all(isinstance(x, str) for x in meta), 'MODULE_VARIABLES_META_PARSERS keys are not str')
-    cfb = astbuilder._CONTROL_FLOW_BLOCKS
-    need(isinstance(cfb, tuple) and all(isinstance(x, type) and issubclass(x, ast.AST) for x in cfb), '_CONTROL_FLOW_BLOCKS is not a tuple of ast classes')
+    exc = exception_names()
+    meta = meta_var_names()
+    cf = control_flow_flags()
 
     def b(x: bool) -> str:
         return 'true' if x else 'false'
+    table = sorted(oldschool_table(), key=lambda t: (t[1] != 'STATIC_METHOD', t[1] != 'CLASS_METHOD', t[0]))   # canonical order
+    kcode = {'FUNCTION': 0, 'METHOD': 1, 'CLASS_METHOD': 2, 'STATIC_METHOD': 3}
+    need(all(k in kcode for _, k in table), '_handleOldSchoolMethodDecoration gives a kind that is not a function kind: %r' % (table,))
     out = ['From Coq Require Import NArith List Bool.', 'Import ListNotations.', 'Local Open Scope N_scope.', '',
-           '(* pydoctor.model._STD_LIB_EXCEPTIONS *)',
+           '(* base-class names that make a class an EXCEPTION (probed: model.is_exception / _STD_LIB_EXCEPTIONS) *)',
            'Definition std_lib_exceptions : list (list N) := ' + coq_text_list(list(exc)) + '.', '',
-           '(* keys of pydoctor.astbuilder.MODULE_VARIABLES_META_PARSERS *)',
+           '(* module-level names treated as metadata, not documented (probed: MODULE_VARIABLES_META_PARSERS) *)',
            'Definition module_meta_vars : list (list N) := ' + coq_text_list(meta) + '.', '',
-           '(* membership in pydoctor.astbuilder._CONTROL_FLOW_BLOCKS *)',
-           'Definition cf_if : bool := %s.' % b(ast.If in cfb),
-           'Definition cf_while : bool := %s.' % b(ast.While in cfb),
-           'Definition cf_for : bool := %s.' % b(ast.For in cfb),
-           'Definition cf_try : bool := %s.' % b(ast.Try in cfb),
-           'Definition cf_with : bool := %s.' % b(ast.With in cfb), '',
+           '(* does an assignment in the body of this block lose CONSTANT-ness (probed: is_constant / _CONTROL_FLOW_BLOCKS) *)',
+           'Definition cf_if : bool := %s.' % b(cf['if']),
+           'Definition cf_while : bool := %s.' % b(cf['while']),
+           'Definition cf_for : bool := %s.' % b(cf['for']),
+           'Definition cf_try : bool := %s.' % b(cf['try']),
+           'Definition cf_with : bool := %s.' % b(cf['with']), '',
            '(* the suite attribute astutils.NodeVisitor.get_children iterates *)',
            'Definition children_attr : list N := %s. (* %s *)' % (coq_text(children_attr()), children_attr()), '',
-           '(* the names _handleOldSchoolMethodDecoration accepts *)',
-           'Definition oldschool_names : list (list N) := ' + coq_text_list(oldschool_names()) + '.', '']
+           '(* the names _handleOldSchoolMethodDecoration accepts in `f = NAME(f)` (probed on the live method) ... *)',
+           'Definition oldschool_names : list (list N) := ' + coq_text_list([n for n, _ in table]) + '.', '',
+           '(* ... and the kind it gives the method: 2 = CLASS_METHOD, 3 = STATIC_METHOD (Model.Builder.fkind_Z) *)',
+           'Definition oldschool_kinds : list (list N * N) := [' + '; '.join('(%s, %d)' % (coq_text(n), kcode[k]) for n, k in table) + '].', '']
     return {'TablesC03.v': '\n'.join(out)}
